@@ -1,1 +1,137 @@
+//! Runtime linked into every compiled batch of emitted parsers (engine B): observation types, the
+//! callback environment, the per-grammar exploration driver and the oracles.
 
+pub mod driver;
+pub mod oracle;
+pub mod tree;
+
+use std::cell::RefCell;
+use std::rc::Rc;
+
+#[derive(Clone, Debug, PartialEq, Eq)]
+pub enum ONode {
+    /// (rule kind discriminant, end offset)
+    Rule(u16, usize),
+    /// (token discriminant, span index)
+    Token(u16, usize),
+}
+
+/// What the API walk (`Cst::children/get/span`) saw for one rule node.
+#[derive(Clone, Debug, PartialEq, Eq)]
+pub struct ApiNode {
+    pub index: usize,
+    pub is_rule: bool,
+    /// rule kind or token discriminant
+    pub kind: u16,
+    pub span: (usize, usize),
+    pub children: Vec<usize>,
+    pub depth: usize,
+}
+
+#[derive(Clone, Debug, PartialEq, Eq)]
+pub enum EvKind {
+    Pred,
+    Assert,
+    Action,
+    Create,
+    Delete,
+}
+
+#[derive(Clone, Debug, PartialEq, Eq)]
+pub struct Ev {
+    pub kind: EvKind,
+    /// callback name without the prefix, e.g. `s_1` or a node kind name
+    pub name: &'static str,
+    /// parser cursor (index into the token vector) when the callback fired
+    pub pos: usize,
+    /// node index for create / delete
+    pub node: usize,
+    pub in_choice: bool,
+    /// create: announced node is in place with the announced kind and a complete, well nested subtree
+    pub ok: bool,
+    /// pred: peek(0..3) as token discriminants
+    pub peek: [u16; 3],
+    /// pred / assert: the answer given
+    pub answer: bool,
+    /// number of nodes in the vector when the callback fired
+    pub node_len: usize,
+}
+
+#[derive(Clone, Debug, Default, PartialEq, Eq)]
+pub struct Obs {
+    pub nodes: Vec<ONode>,
+    pub spans: Vec<(usize, usize)>,
+    pub diags: Vec<(usize, usize, String)>,
+    pub log: Vec<Ev>,
+    /// pre-order API walk of the returned tree
+    pub api: Vec<ApiNode>,
+    pub panic: Option<String>,
+    /// how many times the answer script was consulted
+    pub consulted: usize,
+}
+
+/// Answers for predicates (default true) and assertions (default pass): the set of consultation indices at
+/// which the default answer is inverted.
+#[derive(Clone, Debug, Default, PartialEq, Eq)]
+pub struct Script {
+    pub deviations: Vec<usize>,
+}
+
+#[derive(Default)]
+pub struct EnvInner {
+    pub script: Script,
+    pub consulted: usize,
+    pub log: Vec<Ev>,
+}
+
+/// The `Context` type of every harness parser.
+#[derive(Clone, Default)]
+pub struct Env(pub Rc<RefCell<EnvInner>>);
+
+impl Env {
+    pub fn new(script: &Script) -> Env {
+        Env(Rc::new(RefCell::new(EnvInner {
+            script: script.clone(),
+            consulted: 0,
+            log: vec![],
+        })))
+    }
+    /// returns the answer for the next consultation: `true` = default (predicate holds / assertion passes)
+    pub fn consult(&self) -> bool {
+        let mut e = self.0.borrow_mut();
+        let i = e.consulted;
+        e.consulted += 1;
+        !e.script.deviations.contains(&i)
+    }
+    pub fn log(&self, ev: Ev) {
+        self.0.borrow_mut().log.push(ev);
+    }
+}
+
+/// One compiled emitted parser.
+pub trait Subject {
+    /// names of the `Rule` enum variants by discriminant (snake case, as printed by Debug)
+    fn rule_names(&self) -> &'static [&'static str];
+    /// names of the `Token` enum variants by discriminant
+    fn token_names(&self) -> &'static [&'static str];
+    /// maps an input byte to the token discriminant (as the harness lexer does)
+    fn run(&self, entry: usize, input: &[u8], script: &Script) -> Obs;
+}
+
+pub fn json_str(s: &str) -> String {
+    let mut o = String::with_capacity(s.len() + 2);
+    o.push('"');
+    for c in s.chars() {
+        match c {
+            '"' => o.push_str("\\\""),
+            '\\' => o.push_str("\\\\"),
+            '\n' => o.push_str("\\n"),
+            '\r' => o.push_str("\\r"),
+            '\t' => o.push_str("\\t"),
+            c if (c as u32) < 0x20 => o.push_str(&format!("\\u{:04x}", c as u32)),
+            c => o.push(c),
+        }
+    }
+    o.push('"');
+    o
+}
